@@ -46,6 +46,7 @@ type step struct {
 
 type trace struct {
 	Steps []step `json:"trace"`
+	Dedup bool   `json:"dedup,omitempty"` // generated with Dedup = TRUE: replayed against a remote that de-duplicates by content
 }
 
 func (s *step) str(i int) string { var v string; _ = json.Unmarshal(s.Args[i], &v); return v }
@@ -90,14 +91,19 @@ type rig struct {
 	srv   *fixture.Server
 	conn  *fixture.VConn
 	c     *wire.Client
+	w     *wire.Client // see watcher
 	log   []string
 	boxes []string
 }
 
 func (r *rig) logf(f string, a ...interface{}) { r.log = append(r.log, fmt.Sprintf(f, a...)) }
 
+// dedupFamily: the behaviours being replayed come from a configuration with Dedup = TRUE (the remote identifies messages by content).
+var dedupFamily bool
+
 func newRig(run *ev.Run, boxes []string) (*rig, error) {
 	conn := fixture.NewVConn(map[string]string{"user": "pass"})
+	conn.Dedup = dedupFamily
 	srv, err := fixture.StartServer(fixture.Config{Users: []fixture.User{{Name: "user", Pass: "pass", Conn: conn}}})
 	if err != nil {
 		return nil, err
@@ -135,6 +141,10 @@ func (r *rig) close() {
 	if r.c != nil {
 		r.c.Close()
 	}
+	if r.w != nil {
+		r.w.Close()
+		r.w = nil
+	}
 	_ = r.srv.Close(15 * time.Second)
 	r.srv.RemoveDir()
 }
@@ -142,11 +152,16 @@ func (r *rig) close() {
 // restart closes the server and opens it again on the same directories.
 func (r *rig) restart() error {
 	r.c.Close()
+	if r.w != nil {
+		r.w.Close()
+		r.w = nil
+	}
 	old := r.srv
 	if err := old.Close(20 * time.Second); err != nil {
 		return fmt.Errorf("close: %w", err)
 	}
 	nc := fixture.NewVConn(map[string]string{"user": "pass"})
+	nc.Dedup = dedupFamily
 	nc.CarryOver(r.conn)
 	cfg := old.Cfg
 	cfg.Users = []fixture.User{{Name: "user", Pass: "pass", ID: old.Users[0].ID, Conn: nc}}
@@ -201,8 +216,32 @@ func (r *rig) view(box string) ([]msg, error) {
 	return out, nil
 }
 
-func (r *rig) listed() (bool, error) {
-	res := r.c.Cmd(`LIST "" "*"`)
+func (r *rig) listed() (bool, error) { return listedOn(r.c) }
+
+// watcher: a second session that keeps the recovery mailbox selected all the time and only ever sends LIST (no command
+// that flushes): what LIST says must not depend on what the listing session has selected or has been told so far.
+func (r *rig) watcher() *wire.Client {
+	if r.w != nil {
+		return r.w
+	}
+	c, err := wire.Dial(r.srv.Addr)
+	if err != nil {
+		return nil
+	}
+	if res := c.Login("user", "pass"); res.Status != "OK" {
+		c.Close()
+		return nil
+	}
+	if res := c.Cmd("SELECT " + wire.Quote(rec)); res.Status != "OK" {
+		c.Close()
+		return nil
+	}
+	r.w = c
+	return c
+}
+
+func listedOn(c *wire.Client) (bool, error) {
+	res := c.Cmd(`LIST "" "*"`)
 	if res.Status != "OK" {
 		return false, fmt.Errorf("LIST: %s %s", res.Status, res.Text)
 	}
@@ -287,7 +326,12 @@ func (r *rig) exec(i int, st *step) (key, detail string, err error) {
 					text = l.Text
 				}
 			}
-			if m := reCopyUID.FindStringSubmatch(text); m == nil || fmt.Sprint(expand(m[1])) != fmt.Sprint(st.ints(2)) {
+			if m := reCopyUID.FindStringSubmatch(text); m == nil {
+				// (no COPYUID when nothing was added: every message was in the destination already - remote de-duplication)
+				if len(st.ints(2)) != 0 {
+					return bad("copyuid", "answered %q, the model says destination UIDs %v", text, st.ints(2))
+				}
+			} else if fmt.Sprint(expand(m[1])) != fmt.Sprint(st.ints(2)) {
 				return bad("copyuid", "answered %q, the model says destination UIDs %v", text, st.ints(2))
 			}
 		}
@@ -382,12 +426,22 @@ func (r *rig) exec(i int, st *step) (key, detail string, err error) {
 	if l != st.Listed {
 		return bad("listing", "LIST shows the recovery mailbox: %v; it holds %d messages", l, len(st.Content[rec]))
 	}
+	if w := r.watcher(); w != nil {
+		lw, err := listedOn(w)
+		if err != nil {
+			r.w.Close()
+			r.w = nil
+		} else if lw != st.Listed {
+			return bad("listing/session-with-recovery-selected", "LIST of a session that has the recovery mailbox selected shows it: %v; it holds %d messages", lw, len(st.Content[rec]))
+		}
+	}
 	return "", "", nil
 }
 
 func run(r *ev.Run, tier, replay string) {
 	specDir := filepath.Join(ev.Root(), "spec")
-	var traces []*trace
+	var traces, dedupTraces []*trace
+	nDedup := 0
 	var states, transitions int64
 	boxes := []string{"A", "B", rec}
 	if replay != "" {
@@ -407,6 +461,11 @@ func run(r *ev.Run, tier, replay string) {
 		}
 		traces = []*trace{rp.Replay.Trace}
 		states, transitions = 1, 1
+		if rp.Replay.Trace.Dedup {
+			nDedup = 1
+			traces = nil
+			dedupTraces = []*trace{rp.Replay.Trace}
+		}
 	} else {
 		shard, n := ev.Shard()
 		if shard == 0 {
@@ -436,10 +495,44 @@ func run(r *ev.Run, tier, replay string) {
 			return
 		}
 		transitions += res.Generated
+		// second family: the remote de-duplicates by content (GluonRecovery.dedup.cfg exhaustive, dedup.sim.cfg behaviours)
+		if shard == 0 {
+			res, err := tlc.Run(tlc.Options{SpecDir: specDir, Module: "GluonRecovery", Cfg: filepath.Join(specDir, "cfg", "GluonRecovery.dedup.cfg"),
+				Workers: 6, Timeout: 30 * time.Minute, KeepOutput: true})
+			if err != nil || res.Violated != "" || res.Error != "" || !res.Finished {
+				r.Machinery("TLC on GluonRecovery.dedup.cfg did not finish cleanly: err=%v violated=%q error=%q", err, res.Violated, res.Error)
+				return
+			}
+			states += res.Distinct
+			transitions += res.Generated
+		}
+		nd := 120
+		if tier == "thorough" {
+			nd = 2000
+		}
+		nd = (nd + n - 1) / n
+		res, err = tlc.Run(tlc.Options{SpecDir: specDir, Module: "GluonRecovery", Cfg: filepath.Join(specDir, "cfg", "GluonRecovery.dedup.sim.cfg"),
+			Workers: 1, Simulate: true, SimNum: nd, SimDepth: 40, Seed: ev.Seed()*104729 + int64(shard), Timeout: 10 * time.Minute, KeepOutput: true,
+			OnJSON: func(raw []byte) {
+				var t trace
+				if json.Unmarshal(raw, &t) == nil && len(t.Steps) > 0 {
+					t.Dedup = true
+					dedupTraces = append(dedupTraces, &t)
+				}
+			}})
+		if err != nil || res.Violated != "" || res.Error != "" || len(dedupTraces) == 0 {
+			r.Machinery("TLC simulation of GluonRecovery (dedup): err=%v violated=%q error=%q traces=%d", err, res.Violated, res.Error, len(dedupTraces))
+			return
+		}
+		transitions += res.Generated
+		nDedup = len(dedupTraces)
 	}
 	r.Add("states", states)
 	r.Add("transitions", transitions)
+	r.Add("behaviours_with_a_deduplicating_remote", int64(nDedup))
+	traces = append(traces, dedupTraces...)
 	for ti, t := range traces {
+		dedupFamily = t.Dedup
 		rg, err := newRig(r, boxes)
 		if err != nil {
 			r.Machinery("server: %v", err)
